@@ -29,6 +29,72 @@ ASSUMPTIONS = ["ModuleMeta numbers controllers in definition order: generated on
 MM = "rv.modules.metamodule"
 
 
+def mapping_alignment_rule(repo: Repo, rep, P: str, rule: str):
+    """update_user_defined_controllers pairs mapping i with user-defined controller i: the two sequences are walked in step from
+    the start, unfiltered.  Dropping unmapped slots BEFORE the pairing shifts every later mapping onto an earlier controller."""
+    from .. import inline as _inl
+    from ..packed import single_defs, resolve_names
+    mm = repo.cls("MetaModule", module="rv.modules.metamodule")
+    ma = mm.nested.get("MappingArray")
+    upd = ma.methods.get("update_user_defined_controllers") if ma is not None else None
+    if upd is None:
+        return
+    con = f"{mm.file.rel}:MetaModule.MappingArray.update_user_defined_controllers"
+    fn = _inl.normalize(repo, ma, upd, aliases=True)
+    mp = fn.args.args[0].arg if fn.args.args else "metamodule"
+    defs = single_defs(fn)
+    stores = [n for n in ast.walk(fn) if isinstance(n, ast.Attribute) and isinstance(n.ctx, ast.Store) and n.attr == "value_type" and isinstance(n.value, ast.Name)]
+    if not stores:
+        return          # decided elsewhere (C17.R5 / user_value_type_rule)
+    uvar = stores[0].value.id
+    verdict, detail = "?", "pairing of mappings and user-defined controllers not recognised"
+    for lp in [n for n in ast.walk(fn) if isinstance(n, ast.For)]:
+        it = resolve_names(lp.iter, defs)
+        tgt = lp.target
+        if isinstance(it, ast.Call) and norm(it.func) == "enumerate" and it.args and isinstance(tgt, ast.Tuple) and len(tgt.elts) == 2:
+            it, tgt = resolve_names(it.args[0], defs), tgt.elts[1]
+        rows = None
+        if isinstance(tgt, ast.Name) and any(isinstance(a, ast.Assign) and isinstance(a.targets[0], ast.Tuple) and isinstance(a.value, ast.Name)
+                                             and a.value.id == tgt.id and any(norm(e) == uvar for e in a.targets[0].elts) for a in ast.walk(lp)):
+            a = next(a for a in ast.walk(lp) if isinstance(a, ast.Assign) and isinstance(a.targets[0], ast.Tuple) and isinstance(a.value, ast.Name) and a.value.id == tgt.id)
+            tgt = a.targets[0]
+        if isinstance(it, ast.Call) and norm(it.func) == "zip" and isinstance(tgt, ast.Tuple) and len(it.args) == len(tgt.elts) \
+                and any(norm(e) == uvar for e in tgt.elts):
+            rows = list(zip(tgt.elts, it.args))
+        if rows is None:
+            continue
+        verdict = "ok"
+        for t, a in rows:
+            a = resolve_names(a, defs)
+            base = a
+            while True:
+                if isinstance(base, ast.Subscript) and isinstance(base.slice, ast.Slice) and base.slice.lower is None and base.slice.step is None:
+                    base = base.value          # a prefix: positions unchanged
+                elif isinstance(base, ast.Call) and norm(base.func) in ("islice", "itertools.islice") and len(base.args) == 2:
+                    base = base.args[0]
+                elif isinstance(base, ast.Call) and norm(base.func) in ("list", "tuple", "iter") and len(base.args) == 1:
+                    base = base.args[0]
+                else:
+                    break
+            filtered = (isinstance(base, (ast.ListComp, ast.GeneratorExp)) and any(g.ifs for g in base.generators)) or \
+                (isinstance(base, ast.Call) and norm(base.func) in ("filter", "itertools.filterfalse", "filterfalse", "compress", "takewhile", "dropwhile"))
+            if filtered:
+                verdict, detail = "bad", f"`{norm(t)}` comes from a filtered sequence ({norm(base)[:80]})"
+                break
+            if not (isinstance(base, ast.Attribute) and norm(base) in (f"{mp}.mappings.values", f"{mp}.user_defined")):
+                if verdict == "ok":
+                    verdict, detail = "?", f"sequence paired with the controllers not recognised: {norm(base)[:80]}"
+        break
+    if verdict == "ok":
+        rep.ok(f"{P}.{rule}", con, "zip(mappings.values, user_defined)", "mapping i is applied to user-defined controller i (unfiltered, from the start)")
+    elif verdict == "bad":
+        rep.violation(f"{P}.{rule}", con, detail,
+                      "mappings are filtered before they are paired with the user-defined controllers: after an unmapped / dangling slot every later "
+                      "mapping is applied to an earlier controller (wrong value types and values)", f"{mm.file.rel}:{upd.lineno}")
+    else:
+        rep.inconclusive(f"{P}.{rule}", con, "", detail, f"{mm.file.rel}:{upd.lineno}")
+
+
 def run(repo: Repo, rep, tier: str):
     naming(repo, rep, "C15")
     labels_and_project(repo, rep, "C15")
@@ -391,6 +457,7 @@ def labels_and_project(repo: Repo, rep, P: str):
                           "mapping fields are written in a different order than they are read", rel)
     # user-controller value type is the target's per-instance type (unit-dependent ranges, nested user controllers)
     user_value_type_rule(repo, rep, P, "R2")
+    mapping_alignment_rule(repo, rep, P, "R2")
     upd = mm.nested["MappingArray"].methods.get("update_user_defined_controllers")
     us = norm(upd) if upd else ""
     if "user_defined_controller.default = controller.default" in us and "mod.controller_values[controller.name]" in us:
